@@ -5,7 +5,7 @@ Reference model: datetime.date.toordinal().  serial(d) = ordinal(d) - ordinal(18
 (+ milliseconds of the day / 86 400 000, computed as an exact Fraction) is demanded for every
 instant from 1900-03-01T00:00:00 on.  Before 1 Mar 1900 the statement only demands that
 date -> serial -> date is the identity and that serials increase strictly with time, so there
-the *observed* serial is used wherever a function must "see the same serial".
+nothing else is demanded (N / DAYS / subtraction / comparisons are checked from 1 Mar 1900 on).
 
 Everything is observed through Parser.parse: dates reach a formula as datetime values bound to
 variables (xd, xp, xe) and, for a subset, as DATE(y,m,d) literals.  A case is a block (one
@@ -30,6 +30,7 @@ HALF_MS_D = 0.5 / 86400000.0           # the same, in days (5.8e-9)
 
 BOUNDARY_YEARS = (1900, 1901, 1904, 1970, 1999, 2000, 2001, 2038, 2100, 2400, 9998, 9999)
 OFFSETS = (1, -1, 7, 30, 365, 36525)
+ALLDAY_OFFSETS = (1, -1)
 
 # 40 chosen days: both sides of 1 Mar 1900, first days, leap days, century years, both sides of
 # the Unix epoch (the implementation computes in epoch seconds), 2^31 s, last days
@@ -41,7 +42,7 @@ INSTANT_DAYS = (
     '2100-03-01', '2100-12-31', '2399-12-31', '2400-02-29', '2400-03-01', '3000-06-15',
     '4000-02-29', '5555-05-05', '7000-07-07', '8000-02-29', '9000-01-01', '9996-02-29',
     '9999-01-01', '9999-12-01', '9999-12-30', '9999-12-31')
-QUICK_INSTANT_DAYS = ('1900-01-01', '1900-02-28', '1900-03-01', '1969-12-31', '2000-02-29', '9999-12-31')
+QUICK_INSTANT_DAYS = ('1900-01-01', '1900-02-28', '1900-03-01', '9999-12-31')
 
 # 24 chosen seconds, every millisecond of each
 MILLI_SECONDS = (
@@ -52,19 +53,26 @@ MILLI_SECONDS = (
     '2100-02-28T23:59:59', '2400-02-29T00:00:00', '5555-05-05T05:55:55', '9999-01-01T00:00:00',
     '9999-12-31T00:00:00', '9999-12-31T11:59:59', '9999-12-31T23:59:58', '9999-12-31T23:59:59')
 
+assert len(set(INSTANT_DAYS)) == 40 and len(set(MILLI_SECONDS)) == 24 and set(QUICK_INSTANT_DAYS) <= set(INSTANT_DAYS)
+
 BOUNDS = {
     'quick': 'days: every day of 12 boundary years (%s) + first and last day of every month of every year '
              '1900..9999 (198 495 days); serials: the reference serials of those days (>= 61); offsets '
-             '{1,-1,7,30,365,36525} from each of those days; date-times: every second of 6 chosen days, every '
+             '{1,-1,7,30,365,36525} from each of those days; date-times: every second of 4 chosen days, every '
              'millisecond of 24 chosen seconds' % ','.join(str(y) for y in BOUNDARY_YEARS),
     'thorough': 'days: every calendar day 1900-01-01..9999-12-31 (2 958 464); serials: every integer 61..2 958 465; '
-                'offsets {1,-1,7,30,365,36525} from every day (result kept inside 1900-03-01..9999-12-31); '
+                'offsets {1,-1} from every day and {7,30,365,36525} from the 198 495 days of the quick set (result '
+                'kept inside 1900-03-01..9999-12-31); the long '
+                'formula list (literal DATE() routes, all six comparison operators, x-y, n+d, d-(-n)) on every day '
+                'of the 12 boundary years; '
                 'date-times: every second of 40 chosen days (3 456 000 instants), every millisecond of 24 '
                 'chosen seconds.  Not exhausted: the 2.5e14 millisecond instants (grid only)',
 }
 ASSUMPTIONS = [
-    'before 1 Mar 1900 no particular serial is demanded: only date -> serial -> date identity, strict '
-    'monotonicity, and that N / DAYS / - / comparisons agree with the serial DATEVALUE reports',
+    'before 1 Mar 1900 no particular serial is demanded: only date -> serial -> date identity (d+0 = d), strict '
+    'monotonicity of DATEVALUE, and that DATE(y,m,d) and the same datetime bound to a variable get the same '
+    'serial; N / DAYS / subtraction / comparisons are checked only for dates from 1 Mar 1900 on (the "Hence" '
+    'sentence of the statement follows from the 1-March-onward serial definition)',
     'd+n is demanded only when both d and d+n lie in 1900-03-01..9999-12-31 (a sum that crosses the phantom '
     '29 Feb 1900 or leaves year 9999 is not demanded)',
     'serial -> date -> serial is demanded for serials >= 61 only (whole serials everywhere, fractional serials '
@@ -106,14 +114,6 @@ def near_num(v, want, tol=HALF_MS_D):
     return isnum(v) and abs(v - want) <= tol
 
 
-def is_true(v):
-    return v is True
-
-
-def is_false(v):
-    return v is False
-
-
 def month_ends(y):
     """First and last day (as ordinals) of every month of year y, ascending, duplicate-free."""
     out = []
@@ -125,10 +125,19 @@ def month_ends(y):
     return out
 
 
+def quick_days(y):
+    """quick tier: first/last day of every month for leap years and the years around a century,
+    else the four days that carry the year / February / March boundaries"""
+    if y % 4 == 0 or y % 100 in (1, 99):
+        return month_ends(y)
+    me = month_ends(y)
+    return [me[0], me[3], me[4], me[-1]]
+
+
 def day_ordinals(tier, y):
     if tier == 'thorough' or y in BOUNDARY_YEARS:
         return range(D(y, 1, 1).toordinal(), D(y, 12, 31).toordinal() + 1)
-    return month_ends(y)
+    return quick_days(y)
 
 
 def classify(env, d):
@@ -148,8 +157,14 @@ class YearBlocks(Sub):
     """Common enumeration: one case per calendar year."""
     min_cases = 8100
 
+    def units(self, tier):
+        # several year ranges per sub in the thorough tier: smaller work items, shorter tail
+        if tier == 'quick':
+            return [[1900, 9999]]
+        return [[1900, 3999], [4000, 5999], [6000, 7999], [8000, 9999]]
+
     def cases(self, tier, unit):
-        for y in range(1900, 10000):
+        for y in range(unit[0], unit[1] + 1):
             yield ['year', tier, y]
 
 
@@ -158,11 +173,12 @@ class YearBlocks(Sub):
 class Days(YearBlocks):
     name = 'c13.days'
     rule = ('every calendar day of the tier (thorough: all 2 958 464; quick: boundary years + first/last of every '
-            'month), as datetime variable and as DATE(y,m,d): DATEVALUE = reference serial from 1 Mar 1900 on, '
-            'serial strictly greater than that of the previously visited day, d+0 = d, N / DAYS / d-p / '
-            'comparisons see the same serial; non-trivial = day on or after 1900-03-01 (a specific serial is '
+            'month), as datetime variable (and as DATE(y,m,d) on boundary years and first/last day of every month): '
+            'DATEVALUE = reference serial from 1 Mar 1900 on, '
+            'serial strictly greater than that of the previously visited day, d+0 = d; from 1 Mar 1900 on N / DAYS / '
+            'd-p / comparisons see the same serial; non-trivial = day on or after 1900-03-01 (a specific serial is '
             'demanded)')
-    min_nontrivial = 190000
+    min_nontrivial = 60000
     min_classes = 5
 
     def check(self, env, case):
@@ -223,28 +239,40 @@ class Days(YearBlocks):
         if not near_dt(v, dt):
             bad('xd+0 with xd = %s does not return the same date' % d, enc(dt), v, b)
 
-        # -- same date spelled DATE(y,m,d)
-        v, b = val(env, 'DATEVALUE(%s)' % lit_d)
-        if not near_num(v, ref):
-            bad('DATEVALUE(%s) is not the serial %r' % (lit_d, ref), ref, v, b)
+        # -- same date spelled DATE(y,m,d) (boundary years and first/last day of every month; C14 sweeps
+        #    YEAR/MONTH/DAY(DATE(y,m,d)) over every day)
+        if full or d.day == 1 or o == LAST_ORD or D.fromordinal(o + 1).day == 1:
+            v, b = val(env, 'DATEVALUE(%s)' % lit_d)
+            if not near_num(v, ref):
+                bad('DATEVALUE(%s) is not the serial %r' % (lit_d, ref), ref, v, b)
 
-        # -- N, DAYS, subtraction, comparisons see the same serial
+        if full:
+            v, b = val(env, '%s+0' % lit_d)
+            if not near_dt(v, dt):
+                bad('%s+0 does not return the same date' % lit_d, enc(dt), v, b)
+            v, b = val(env, '0+xd', {'xd': dt})
+            if not near_dt(v, dt):
+                bad('0+xd with xd = %s does not return the same date' % d, enc(dt), v, b)
+        if not post:
+            return s      # before 1 Mar 1900 only the round trip and strict monotonicity are demanded
+
+        # -- N, DAYS, subtraction, comparisons see the same serial (dates from 1 Mar 1900 on)
         v, b = val(env, 'N(xd)', {'xd': dt})
         if not near_num(v, ref):
             bad('N(xd) with xd = %s is not the serial %r' % (d, ref), ref, v, b)
-        if p is not None and isnum(sp):
+        if p is not None and p >= MAR1_ORD:
             pd = D.fromordinal(p)
             pdt = DT(pd.year, pd.month, pd.day)
-            diff = (o - p) if p >= MAR1_ORD and post else s - sp
+            diff = o - p
             v, b = val(env, 'DAYS(xd,xp)', {'xd': dt, 'xp': pdt})
             if not near_num(v, diff):
                 bad('DAYS(xd,xp) with xd = %s, xp = %s is not the difference of their serials (%r)' % (d, pd, diff),
                     diff, v, b)
-            v, b = val(env, 'xd-xp', {'xd': dt, 'xp': pdt})
-            if not near_num(v, diff):
-                bad('xd-xp with xd = %s, xp = %s is not the difference of their serials (%r)' % (d, pd, diff),
-                    diff, v, b)
             if full:
+                v, b = val(env, 'xd-xp', {'xd': dt, 'xp': pdt})
+                if not near_num(v, diff):
+                    bad('xd-xp with xd = %s, xp = %s is not the difference of their serials (%r)' % (d, pd, diff),
+                        diff, v, b)
                 lit_p = 'DATE(%d,%d,%d)' % (pd.year, pd.month, pd.day)
                 v, b = val(env, '%s-%s' % (lit_d, lit_p))
                 if not near_num(v, diff):
@@ -262,12 +290,6 @@ class Days(YearBlocks):
             if v is not want:
                 bad('%s with xd = %s, xs = %r (its serial) should be %s' % (f, d, ref, want), want, v, b)
         if full:
-            v, b = val(env, '%s+0' % lit_d)
-            if not near_dt(v, dt):
-                bad('%s+0 does not return the same date' % lit_d, enc(dt), v, b)
-            v, b = val(env, '0+xd', {'xd': dt})
-            if not near_dt(v, dt):
-                bad('0+xd with xd = %s does not return the same date' % d, enc(dt), v, b)
             v, b = val(env, 'DATEVALUE(xd+0)', {'xd': dt})
             if not near_num(v, ref):
                 bad('DATEVALUE(xd+0) with xd = %s is not the serial %r' % (d, ref), ref, v, b)
@@ -279,9 +301,9 @@ class Days(YearBlocks):
 class Serials(YearBlocks):
     name = 'c13.serials'
     rule = ('every integer serial of the tier (thorough: all of 61..2 958 465; quick: serials of the quick day '
-            'set), as variable and as literal: DATEVALUE(n) = n and YEAR/MONTH/DAY(n) = the reference date '
+            'set), as variable (as literal on the quick day set): DATEVALUE(n) = n and YEAR/MONTH/DAY(n) = the reference date '
             'fromordinal(n + ordinal(1899-12-30)); non-trivial = every serial')
-    min_nontrivial = 190000
+    min_nontrivial = 60000
     min_classes = 4
 
     def check(self, env, case):
@@ -311,9 +333,10 @@ class Serials(YearBlocks):
         v, b = val(env, 'DATEVALUE(xs)', {'xs': n})
         if not near_num(v, n):
             bad('DATEVALUE(xs) with xs = %d (the serial of %s) does not return the serial' % (n, d), n, v, b)
-        v, b = val(env, 'DATEVALUE(%d)' % n)
-        if not near_num(v, n):
-            bad('DATEVALUE(%d) (the serial of %s) does not return the serial' % (n, d), n, v, b)
+        if full or d.day == 1 or n + EPOCH_ORD == LAST_ORD or D.fromordinal(n + EPOCH_ORD + 1).day == 1:
+            v, b = val(env, 'DATEVALUE(%d)' % n)
+            if not near_num(v, n):
+                bad('DATEVALUE(%d) (the serial of %s) does not return the serial' % (n, d), n, v, b)
         for fn, want in (('YEAR', d.year), ('MONTH', d.month), ('DAY', d.day)):
             v, b = val(env, fn + '(xs)', {'xs': n})
             if not (isnum(v) and v == want):
@@ -340,18 +363,22 @@ class Serials(YearBlocks):
 
 class Offsets(YearBlocks):
     name = 'c13.offsets'
-    rule = ('every day of the tier x n in {1,-1,7,30,365,36525} with d and d+n inside 1900-03-01..9999-12-31: '
+    rule = ('every day of the tier x n in {1,-1} and every day of the quick day set (boundary years + first/last of '
+            'every month) x n in {7,30,365,36525}, with d and d+n inside 1900-03-01..9999-12-31: '
             'xd+xn is the date n days later; on boundary-year days also (xd+xn)-xd = n, xe-xd = n, xn+xd, '
             'DATE(..)+n, xd-(-n); non-trivial = the sum crosses a month boundary')
-    min_nontrivial = 50000
+    min_nontrivial = 15000
     min_classes = 6
 
     def units(self, tier):
         return list(OFFSETS)
 
     def cases(self, tier, unit):
+        # thorough: n = +-1 from every day; the larger offsets from the quick day set (198 495 anchor days):
+        # every date -> serial and serial -> date mapping is already swept completely by c13.days / c13.serials
+        dayset = 'thorough' if tier == 'thorough' and unit in ALLDAY_OFFSETS else 'quick'
         for y in range(1900, 10000):
-            yield ['year', tier, y, unit]
+            yield ['year', dayset, y, unit]
 
     def check(self, env, case):
         out = []
@@ -451,15 +478,19 @@ def check_instant(env, t, tp, sp, narrow, out):
 
 class Instants(Sub):
     name = 'c13.seconds'
-    rule = ('every second of the chosen days (40 thorough / 6 quick), one case per hour: DATEVALUE(xd) = days '
+    rule = ('every second of the chosen days (40 thorough / 4 quick), one case per hour: DATEVALUE(xd) = days '
             'since 1899-12-30 + fraction (from 1 Mar 1900), strictly increasing second over second, xd+0 = xd to '
             '0.5 ms, DATEVALUE(serial) = serial; non-trivial = instant with a non-zero time of day')
-    min_cases = 144
-    min_nontrivial = 500000
+    min_cases = 96
+    min_nontrivial = 300000
     min_classes = 2
 
+    def units(self, tier):
+        days = QUICK_INSTANT_DAYS if tier == 'quick' else INSTANT_DAYS
+        return [list(days[i:i + 10]) for i in range(0, len(days), 10)]
+
     def cases(self, tier, unit):
-        for day in (QUICK_INSTANT_DAYS if tier == 'quick' else INSTANT_DAYS):
+        for day in unit:
             for h in range(24):
                 yield [day, h]
 
